@@ -40,9 +40,19 @@ def conformance(c, b, tier):
         if r.returncode != 0:
             skipped.append("P=%d: mpiexec exit %d: %s" % (P, r.returncode, r.stderr[-200:])); continue
         real = [l for l in r.stdout.splitlines() if l.strip()]
+        def key(line):
+            return " ".join(t for t in line.split() if not t.startswith(("weight=", "cycles=")))
+        model_keys = set(key(l) for l in model)
         for l in real:
             if l not in model:
-                # the real stack did something the model cannot: model too small -> harness error
+                if key(l) in model_keys:
+                    # same entry point on the same graph, different result: the REAL Boost.MPI/OpenMPI run (separate processes,
+                    # their own heap layouts) returned something that no explored execution of the model returns
+                    want = sorted(m for m in model if key(m) == key(l))
+                    c.violations.append({"site": "mpi entry point (real mpiexec)", "class": "real-mpi-result", "case": "mpiexec -n %d conformance program: %s" % (P, key(l)),
+                                         "msg": "real run printed %r, every execution of the model prints one of %r" % (l, want[:3]), "replay": {"harness": "mpiexec"}})
+                    continue
+                # the real stack did something the model has no counterpart for: model too small -> harness error
                 raise vlib.HarnessError("real mpiexec -n %d printed a line outside the model's outcome set: %r" % (P, l))
         validated += len(real)
     c.traces_validated = (c.traces_validated or 0) + validated
